@@ -331,3 +331,108 @@ func init() {
 		})
 	}
 }
+
+// Operations issued from inside the timer's own callback (the clearInterval-in-callback
+// idiom), and a cancellation issued while a callback is still running.
+func timerCallbackBody(interval bool, op string, atTick int, slowCb bool) vsched.Body {
+	what := fmt.Sprintf("%s: %s from its own callback at tick %d", kindName(interval), op, atTick)
+	if slowCb {
+		what = fmt.Sprintf("%s: %s from another goroutine while callback %d is running", kindName(interval), op, atTick)
+	}
+	fp := fmt.Sprintf("%s %s-in-callback", kindName(interval), op)
+	if slowCb {
+		fp = fmt.Sprintf("%s %s-during-callback", kindName(interval), op)
+	}
+	return func(x *vsched.Exec) {
+		var cbs []int
+		var tm *utils.Timer
+		returned := 0
+		gate := make(chan struct{})
+		inCb := false
+		do := func() {
+			switch op {
+			case "stop":
+				tm.Stop()
+			case "clear":
+				utils.ClearTimeout(tm)
+			case "refresh":
+				tm.Refresh()
+			}
+			returned++
+		}
+		cb := func() {
+			cbs = append(cbs, int(x.Now()/tUnit))
+			if len(cbs) == atTick {
+				if slowCb {
+					inCb = true
+					vsched.Recv(gate) // the callback is still running while the other goroutine cancels
+					inCb = false
+				} else {
+					do()
+				}
+			}
+		}
+		vsched.GoNamed("set", func() {
+			if interval {
+				tm = utils.SetInterval(cb, tPeriod*tUnit)
+			} else {
+				tm = utils.SetTimeout(cb, tPeriod*tUnit)
+			}
+		})
+		x.Settle()
+		if slowCb {
+			vsched.GoNamed("other", func() {
+				vsched.SleepUntil(time.Duration(atTick*tPeriod) * tUnit)
+				vsched.WaitFor(0, "wait-callback-running", func() bool { return inCb })
+				do()
+				vsched.Close(gate)
+			})
+		}
+		end := atTick*tPeriod + 3*tPeriod
+		x.Run(time.Duration(end) * tUnit)
+		if returned != 1 {
+			x.Fail("op-blocked["+fp+"]: the operation did not return (%s) blocked=%v", what, x.Blocked())
+		}
+		// reference: callbacks at every period up to the op; afterwards by the op's meaning
+		ref := &refTimer{interval: interval, due: tPeriod}
+		for t := 0; t <= end; t++ {
+			if ref.due == t {
+				ref.fire(t)
+				if len(ref.cbs) == atTick {
+					ref.apply(op, t)
+					if op == "refresh" {
+						ref.due = t + tPeriod
+					}
+				}
+			}
+		}
+		want := map[string]bool{fmt.Sprint(ref.cbs): true}
+		timerCheckEnd(x, &cbs, tm, end, want, fp, what)
+	}
+}
+
+func init() {
+	register("C19", "callback", false, func(c *Ctx) {
+		n := 0
+		for _, interval := range []bool{false, true} {
+			for _, op := range []string{"stop", "clear", "refresh"} {
+				for _, at := range []int{1, 2} {
+					if !interval && at > 1 {
+						continue
+					}
+					for _, slow := range []bool{false, true} {
+						if slow && op == "refresh" {
+							continue
+						}
+						n++
+						id := fmt.Sprintf("%s:%s@callback%d slow=%v", kindName(interval), op, at, slow)
+						c.Explore(id, Pick(c, 2, 4), timerCallbackBody(interval, op, at, slow))
+					}
+				}
+			}
+		}
+		c.Res.Distinct = int64(n)
+		c.Sample("interval:clear@callback1 slow=false")
+		c.Note("Stop / ClearTimeout / Refresh called from the timer's own callback (first or second run), and Stop / ClearTimeout from another goroutine while a callback is still running; the call must return, later callbacks follow the reference, no goroutine left")
+	})
+}
